@@ -19,7 +19,7 @@ PARS = ['\n\n', '\n \n', '\n\n\n', ' \n\t\n ', '\\par', '\\par ', '\n\\par\n', '
         '\r\n\r\n', '\n\x0c\n', '\r\n \r\n', '\n\x0b\n']
 
 VANISH = ['com', 'label', 'index', 'unk', 'unkarg', 'skip', 'tikz', 'ltskip', 'vanish2', 'unkenv_b', 'unkenv_e',
-          'lang', 'xspace', 'vspace', 'ygap', 'ytodo', 'olang']
+          'lang', 'xspace', 'vspace', 'ygap', 'ytodo', 'olang', 'ctlsym']
 USERDEFS = '\\newcommand{\\ygap}[1]{ }\\newcommand{\\ytodo}[1]{% off\n}\n'
 
 
@@ -99,6 +99,9 @@ def render(rnd, atoms, lang_ml=False):
             s += '\\begin{otherlanguage}{' + rnd.choice(['german', 'english', 'french']) + '}' \
                  + rnd.choice(['', '', '%hoQ\n']) + '\\end{otherlanguage}'
             k = 'unk'
+        elif k == 'ctlsym':
+            # a control symbol: vanishes, but (TeX) blanks behind it are not skipped
+            s += rnd.choice(['\\/', '\\/', '\\-', '\\+'])
         elif k == 'vspace':
             # declared macro whose replacement is a blank
             s += rnd.choice(['\\vspace{5mm}', '\\vspace*{1ex}'])
@@ -203,6 +206,8 @@ class C05(core.Check):
         atoms = list(case['atoms'])
         ctx = case['ctx']
         ml = case['ml']
+        if 'xspace' in atoms:
+            atoms = [a for a in atoms if a != 'ctlsym']     # (exception list of \xspace: not modelled)
         if not ml:
             atoms = [a for a in atoms if a != 'lang']
         else:
